@@ -81,6 +81,18 @@ PLAN = {
         undecided_clauses=["layer sequences longer than 4 (the flag loops are checked on concrete sequences of 2-4 layers over all five layer kinds)",
                            "that predict()/validate() perform no other write to the flags is read off the code, not proved"],
     ),
+    "C10": dict(
+        title="Feedback blocks keep their repeated layers weight-tied",
+        level="proof",
+        verus=["C10_feedback.rs"],
+        kani=True,
+        undecided_clauses=[
+            "copies are equal at creation: follows from `layers.extend(_layers.clone())` (derived Clone), read not verified",
+            "the accumulation arms (add/subtract/multiply/mean over the members) and the per-copy optimizer steps of Feedback::update are NOT "
+            "verified (whole function out of reach of both tools); the claim is that whatever they produce, the final loop overwrites every "
+            "member of every couple with ONE value and the couples cover every unrolled layer",
+            "parameters() counting each shared parameter once: read, not verified"],
+    ),
     "C13": dict(
         title="Early stopping and the returned histories obey their contract",
         level="model_checking",
@@ -211,6 +223,18 @@ MANIFEST_TEXT = {
              "when the layer is not training.",
         note="bounded in sequence length; composition (prologue -> predictions -> epilogue; entry -> epochs -> exit) by program order of the "
              "regions, read from the source; layers built with a constant Tensor::random stub and fixed hash seeds.",
+    ),
+    "C10": dict(
+        category="proof",
+        technique="Verus contracts on two regions of feedback.rs: construction of the coupling groups and the write-back loop of Feedback::update",
+        design_ref="DESIGN.md §5 C10",
+        text="Proof for all block lengths, loop counts, layer lists and values: (1) the coupling groups built in Feedback::create are exactly "
+             "{l + i*length : i < loops} for every layer l, so they cover every unrolled index exactly once (lemma); (2) the last loop of "
+             "Feedback::update leaves every dense / convolution / deconvolution member of a couple holding a copy of the one accumulated "
+             "weight (and bias), and touches no other layer. Hence after EVERY update - whatever optimizer and accumulation ran before - all "
+             "repetitions are tied; by induction over the step sequence this holds for every history.",
+        note="Tensor is opaque (clone preserves contents: assumed); the accumulation arithmetic and optimizer calls of update() are outside "
+             "the verified regions; creation-time equality and parameters() are read, not verified.",
     ),
     "C13": dict(
         category="model_checking",
